@@ -21,7 +21,7 @@ InputShapes == {
   <<[k |-> "nilsource"]>>, <<[k |-> "nilmap"]>>, <<[k |-> "nilstore"]>>, <<[k |-> "nilparams"]>>,   \* oneof set, inner message nil
   <<[k |-> "source", v |-> "blk"], [k |-> "map", v |-> "a"], [k |-> "store", v |-> "b", mode |-> 1]>> }
 Filters == {"none", "a", "b", "zz", "self", "noquery_a", "nilquery_b"}
-Inits == {0, 5, -1}            \* -1 stands for 2^63 (materialised by the harness)
+Inits == {0, 5, -1, -2}        \* -1 stands for 2^63, -2 for 2^64-1 (the "unset" marker), materialised by the harness
 BinIdx == {0, 1, 5}
 
 Module(n) == [name : {n}, kind : Kinds, inputs : InputShapes, filter : Filters, init : Inits, bin : BinIdx]
@@ -48,6 +48,12 @@ GenInit ==
         req = [mods |-> <<[Sane("a", "map", <<[k |-> "source", v |-> "blk"]>>) EXCEPT !.init = ia],
                           [Sane("b", kb, <<[k |-> "map", v |-> "a"]>>) EXCEPT !.init = ib]>>,
                env |-> [DefaultEnv EXCEPT !.start = st, !.stop = sp, !.prod = p, !.out = IF kb = "map" THEN "b" ELSE "a"]]
+  \/ \E ia \in Inits, ib \in {0, 5, -2}, st \in {0, 7}, sp \in {0, 9}, p \in BOOLEAN, md \in {1, 2}, src \in BOOLEAN :   \* family 5: a store with an
+        \* extreme initial block under a servable mapper
+        req = [mods |-> <<[Sane("a", "store", <<[k |-> "source", v |-> "blk"]>>) EXCEPT !.init = ia],
+                          [Sane("b", "map", IF src THEN <<[k |-> "source", v |-> "blk"], [k |-> "store", v |-> "a", mode |-> md]>>
+                                                   ELSE <<[k |-> "store", v |-> "a", mode |-> md]>>) EXCEPT !.init = ib]>>,
+               env |-> [DefaultEnv EXCEPT !.start = st, !.stop = sp, !.prod = p]]
 GenNext == UNCHANGED req
 
 \* exporting side effect: one JSON line per request
